@@ -20,7 +20,7 @@ from .. import core, tlc, validate
 
 # "s ü.a" is a file next to the directory "s ü"; "s" is a directory of files only whose name is a string prefix of its
 # sibling directory "s ü" (which has a sub-directory)
-NAMES = {"a": "s ü.a", "b": "b é.dir", "s/c": "s ü/c c", "s/t/d": "s ü/t/.d", "u/e": "s/e e"}
+NAMES = {"a": "s ü.a", "b": "b e\u0301.dir", "s/c": "s ü/c c", "s/t/d": "s ü/t/.d", "u/e": "s/e e"}
 REV = {v: k for k, v in NAMES.items()}
 CONTENTS = {"c0": b"", "c1": b"line one\nline two\n", "c2": b"crlf one\r\ncrlf two\r\n", "c3": b"LINE ONE\nline two\n"}
 assert len(CONTENTS["c1"]) == 18 and len(CONTENTS["c2"]) == 20 and len(CONTENTS["c3"]) == 18
